@@ -62,15 +62,24 @@ def filter_func(name):
     return _FILTER_FUNCS[name]
 
 
+_COMPOSITES = {}
+
+
 def mk_filter(names):
-    """names: tuple of filter names -> callable or None (real library objects)."""
+    """names: tuple of filter names -> callable or None (real library objects).
+
+    A composite is created once per process and shared by every dispatcher
+    that asks for the same composition - the way a solver object reuses its
+    filter across solves - so state a composite keeps between calls is seen."""
     if not names:
         return None
     if len(names) == 1:
         return filter_func(names[0])
-    from job_shop_lib.dispatching import create_composite_operation_filter
+    if names not in _COMPOSITES:
+        from job_shop_lib.dispatching import create_composite_operation_filter
 
-    return create_composite_operation_filter(list(names))
+        _COMPOSITES[names] = create_composite_operation_filter(list(names))
+    return _COMPOSITES[names]
 
 
 def mk_dispatcher(instance, filters=()):
